@@ -124,7 +124,10 @@ def run(ctx):
                 "frame >= 1 KiB, or emitted concurrently with >= 2 emitters (distinct (scenario, conn, emitter, seq)); plus the "
                 "held-transfer family: one long-polling GET response / POST kept back by an http.RoundTripper across the "
                 "upgrade while the other transport streams (two transports feeding one parser), with a JSON library that is "
-                "slow at reading event names so that windows between the Adds of one delivery are wide")
+                "slow at reading event names so that windows between the Adds of one delivery are wide; and the connect-window "
+                "family: server events emitted from a namespace middleware (parked by the client), at the top of OnConnection "
+                "and by several goroutines while the first parked event's client handler BLOCKS (channel), plus client->server "
+                "events emitted by that handler")
     ctx.trusted = ["Coq 8.16.1 kernel + vm_compute",
                    "hand-written composition model Sio/EndToEnd.v; component hypotheses are the theorems of C09/C10/C11/C13/C02/C18 "
                    "(discharged for the concrete codec of Sio/EndToEndInst.v), link reliability assumed",
